@@ -127,6 +127,7 @@ fn op_from_name(s: &str) -> Option<Op> {
 const SSRC_OUT: u32 = 0x1111_0001; // media sent by A
 const SSRC_IN: u32 = 0x2222_0002; // media sent by A's peer
 const SSRC_BRIDGE: u32 = 0x3333_0003; // SSRC on the bridged leg
+const SSRC_RAW2: u32 = 0x5555_0005; // the RTCP-looking RTP packet handed to the raw send API
 const SSRC_FORGED: u32 = 0x4444_0004; // wrong-key RTP: no SSRC listener, would reach the provisional one
 const PT: u8 = 96;
 
@@ -408,6 +409,23 @@ impl Sys {
                 secret = secret_payload(step, 1);
                 let raw = plain_rtp_bytes(SSRC_OUT, seq_out, ts, &secret);
                 call = if poll_once(self.a.tr.send(&raw)).is_ok() { "ok" } else { "err" };
+                // the raw API takes whatever bytes the application has: also a genuine RTCP packet
+                // (APP, the secret as its data) and an RTP packet that merely LOOKS like RTCP on its
+                // second octet (marker set, payload type 72 -> 200). Whatever route the transport
+                // picks for them, nothing may leave unprotected or before keys exist.
+                let mut app = vec![0x80, 204, 0, 0];
+                app.extend_from_slice(&SSRC_OUT.to_be_bytes());
+                app.extend_from_slice(b"c14r");
+                app.extend_from_slice(&secret);
+                while app.len() % 4 != 0 {
+                    app.push(0);
+                }
+                let words = (app.len() / 4 - 1) as u16;
+                app[2..4].copy_from_slice(&words.to_be_bytes());
+                let _ = poll_once(self.a.tr.send(&app));
+                let mut lookalike = plain_rtp_bytes(SSRC_RAW2, seq_out, ts, &secret);
+                lookalike[1] = 0x80 | 72;
+                let _ = poll_once(self.a.tr.send(&lookalike));
             }
             Op::SendRtcp => {
                 let rr = RtcpPacket::ReceiverReport(ReceiverReport {
@@ -620,7 +638,10 @@ fn judge(sys: &mut Sys, op: Op, o: &StepObs, secret: &[u8], auth_rtp: bool, auth
             _ => sys.ref_tk_out.get_or_insert_with(|| new_ref(profile, TAG_TK_TX, 0)),
         };
         // RFC 5761 demux on the second byte; either way both are tried.
-        let looks_rtcp = bytes.len() >= 2 && (192..=223).contains(&bytes[1]);
+        // (a datagram whose RTCP length field does not fit it is tried as SRTP first: handing the
+        // reference an SRTP packet as SRTCP makes it unwind, which is slow and serialised)
+        let rtcp_len_fits = bytes.len() >= 8 && (u16::from_be_bytes([bytes[2], bytes[3]]) as usize + 1) * 4 <= bytes.len();
+        let looks_rtcp = bytes.len() >= 2 && (192..=223).contains(&bytes[1]) && rtcp_len_fits;
         let (ok, kind) = if looks_rtcp {
             if ref_auth_rtcp(profile, ctx, bytes) { (true, "rtcp") } else { (ref_auth_rtp(ctx, bytes), "rtp") }
         } else if ref_auth_rtp(ctx, bytes) {
